@@ -150,6 +150,80 @@ func streamViewsOracle(n datamodel.Node, b []byte, r *core.Rand) (msg string) {
 	return ""
 }
 
+// streamModelCorr: random interleavings of reads, seeks and AsBytes over several views of one stream-backed bytes node,
+// call by call against the Lean model (`stream.run`).
+func streamModelCorr(c *core.Ctx, r *core.Rand, n int) error {
+	var lines, impls []string
+	for i := 0; i < n; i++ {
+		content := r.Bytes(r.Intn(24))
+		node := basicnode.NewBytesFromReader(bytes.NewReader(content))
+		lb := node.(datamodel.LargeBytesNode)
+		nv := 1 + r.Intn(3)
+		views := make([]io.ReadSeeker, nv)
+		for k := range views {
+			views[k], _ = lb.AsLargeBytes()
+		}
+		var toks, outs []string
+		for k := 3 + r.Intn(14); k > 0; k-- {
+			v := r.Intn(nv)
+			switch r.Intn(6) {
+			case 0:
+				toks = append(toks, fmt.Sprintf("%d:a", v))
+				b, err := node.AsBytes()
+				if err != nil {
+					outs = append(outs, "err")
+				} else {
+					outs = append(outs, "b"+hexArg(b))
+				}
+			case 1, 2:
+				off := int64(r.Intn(2*len(content)+4)) - int64(len(content)/2) - 2
+				wh := r.Intn(3)
+				if wh == 2 {
+					off = -int64(r.Intn(len(content) + 3))
+					if r.Chance(1, 4) {
+						off = int64(r.Intn(3))
+					}
+				}
+				toks = append(toks, fmt.Sprintf("%d:s:%d:%d", v, off, wh))
+				p, err := views[v].Seek(off, wh)
+				if err != nil {
+					outs = append(outs, "err")
+				} else {
+					outs = append(outs, fmt.Sprintf("p%d", p))
+				}
+			default:
+				k := 1 + r.Intn(9)
+				toks = append(toks, fmt.Sprintf("%d:r:%d", v, k))
+				buf := make([]byte, k)
+				got, err := views[v].Read(buf)
+				o := "b" + hexArg(buf[:got])
+				if err == io.EOF && got == 0 {
+					o += "E"
+				} else if err != nil {
+					o = "err"
+				}
+				outs = append(outs, o)
+			}
+		}
+		line := fmt.Sprintf("stream.run %s %d %s", hexArg(content), nv, strings.Join(toks, " "))
+		lines = append(lines, line)
+		impls = append(impls, strings.Join(outs, " "))
+		c.Count(line, nv >= 2)
+		c.Dist("stream-model")
+	}
+	mouts, err := core.RunDriver(lines)
+	if err != nil {
+		return err
+	}
+	for i := range lines {
+		c.Trace(1)
+		if mouts[i] != impls[i] {
+			c.Fail("C11/corr-stream-views", core.Replay{Kind: "correspondence", Case: lines[i], Impl: impls[i], Model: mouts[i]})
+		}
+	}
+	return nil
+}
+
 type pooled struct {
 	n     datamodel.Node
 	first string
@@ -416,7 +490,7 @@ func runC11(c *core.Ctx) error {
 			c.Sample(strings.Join(hist, " ; "))
 		}
 	}
-	return nil
+	return streamModelCorr(c, c.Rand.Fork(), c.Pick(600, 60000))
 }
 
 func replayC11(c *core.Ctx, rp core.Replay) error {
